@@ -873,48 +873,62 @@ Proof.
   destruct (p c); [unfold mk in H; rewrite H; reflexivity | exact H].
 Qed.
 
+(* one-step equations of the matcher, used instead of computation so that proof terms stay small *)
+Lemma mt_cat : forall a b st k, mt (RCat a b) st k = mt a st (fun st' => mt b st' k).
+Proof. reflexivity. Qed.
+Lemma mt_bol_nl : forall m pos s caps k, mt (RBol m) (mk pos (Some nl) s caps) k = if m then k (mk pos (Some nl) s caps) else None.
+Proof. intros. destruct m; reflexivity. Qed.
+Lemma mt_starc : forall g p pos prev s caps k, mt (RStarC g p) (mk pos prev s caps) k = star_c g p pos prev s caps k.
+Proof. reflexivity. Qed.
+Lemma mt_rchar : forall p c pos prev r caps k, p c = true ->
+  mt (RChar p) (mk pos prev (String c r) caps) k = k (mk (S pos) (Some c) r caps).
+Proof. intros. cbn [mt mk ms_rest]. rewrite H. reflexivity. Qed.
+Lemma mt_group : forall n a pos prev s caps k,
+  mt (RGroup n a) (mk pos prev s caps) k
+  = mt a (mk pos prev s caps) (fun st' => k (mk (ms_pos st') (ms_prev st') (ms_rest st') ((n, (pos, ms_pos st')) :: ms_caps st'))).
+Proof. reflexivity. Qed.
+
 Definition RA3 : re :=
-  RSeq [RGroup 2 (RAlt (RCat (ch ";") (RStarC true not_nl)) (RStarC true is_space_re)); REol true].
+  RCat (RGroup 2 (RAlt (RCat (ch ";") (RStarC true not_nl)) (RStarC true is_space_re))) (REol true).
+Lemma RA2_shape : RA2 = RCat (RChar not_word) (RCat (lit "alias=") (RCat (RGroup 1 (RCat (RChar alias_c) (RStarC true alias_c))) RA3)).
+Proof. reflexivity. Qed.
 
 Lemma ra3_ok : forall pos prev caps,
   exists e, mt RA3 (mk pos prev nls caps) final = Some e /\ cap_lookup 1 (ms_caps e) = cap_lookup 1 caps.
 Proof.
   intros pos prev caps.
   assert (Ex : exists e, mt RA3 (mk pos prev nls caps) final = Some e).
-  { unfold RA3, RSeq. cbn [mt]. unfold nls. rewrite mt_ch_fail by (intros X; inversion X). cbn [orelse mk ms_pos ms_prev ms_rest ms_caps].
+  { unfold RA3. cbn [mt]. unfold nls. rewrite mt_ch_fail by (intros X; inversion X). cbn [orelse mk ms_pos ms_prev ms_rest ms_caps].
     match goal with |- exists e, star_c true is_space_re ?a ?b ?c ?d ?k = Some e =>
       destruct (star_some_here true is_space_re c a b d k (mk a b c ((2, (a, a)) :: d))) as [e2 He2]; [reflexivity | exists e2; exact He2] end. }
   destruct Ex as [e He]. exists e. split; [exact He|].
   destruct (mt_nogroup 1 RA3 eq_refl _ _ _ He) as [st' [H1 H2]]. unfold final in H1. inversion H1; subst. exact H2.
 Qed.
 
-(* the alias line at the start of a line: group 1 is the list of entries *)
 Lemma alias_line_match : forall pos c b1,
   sall alias_c (String c b1) = true ->
   exists e, mt re_alias (mk pos (Some nl) ("shoot: alias=" ++ String c b1 ++ nls)%string []) final = Some e /\
             cap_lookup 1 (ms_caps e) = Some (pos + 13, pos + 13 + String.length (String c b1)).
 Proof.
   intros pos c b1 H. cbn [sall] in H. apply andb_true_iff in H. destruct H as [Hc Hb].
-  rewrite re_alias_shape. cbn [mt mk ms_prev]. replace (is_nl nl) with true by reflexivity. cbn [andb].
-  change ("shoot: alias=" ++ String c b1 ++ nls)%string with ("shoot:" ++ (" alias=" ++ String c b1 ++ nls))%string.
-  rewrite mt_lit by discriminate. cbn [mt mk ms_pos ms_prev ms_rest ms_caps String.length last_of].
   destruct (ra3_ok (pos + 13 + String.length (String c b1)) (last_of (Some c) b1)
                    [(1, (pos + 13, pos + 13 + String.length (String c b1)))]) as [e [He Hcap]].
   exists e. split; [|rewrite Hcap; reflexivity].
-  apply lazy_here.
-  unfold RA2, RSeq, RPlusC. cbn [mt mk ms_pos ms_prev ms_rest ms_caps].
-  change (" alias=" ++ String c b1 ++ nls)%string with (String " " ("alias=" ++ String c (b1 ++ nls))%string).
-  cbv beta iota. assert (Esp : not_word " "%char = true) by reflexivity. rewrite Esp. clear Esp. cbn [step mk ms_pos ms_prev ms_rest ms_caps].
-  match goal with |- mt (lit "alias=") ?st ?k = _ => change st with (mk (S (pos + 6)) (Some " "%char) ("alias=" ++ String c (b1 ++ nls))%string []) end.
-  rewrite mt_lit by discriminate. cbn [mt mk ms_pos ms_prev ms_rest ms_caps String.length last_of].
-  unfold alias_c in Hc. rewrite Hc. cbn [step mk ms_pos ms_prev ms_rest ms_caps].
-  erewrite (star_greedy_full alias_c b1 _ (Some c) nls); [reflexivity | exact Hb | reflexivity |].
-  cbn [mk ms_pos ms_prev ms_rest ms_caps].
-  unfold RA3, RSeq in He. cbn [mt] in He.
-  replace (S (S (pos + 6) + 6) + String.length b1) with (pos + 13 + String.length (String c b1)) by (simpl; lia).
-  replace (S (pos + 6) + 6) with (pos + 13) by lia.
-  unfold nls in *. rewrite mt_ch_fail in He by (intros X; inversion X).
-  rewrite mt_ch_fail by (intros X; inversion X).
+  rewrite re_alias_shape. rewrite mt_cat, mt_bol_nl. rewrite mt_cat.
+  change ("shoot: alias=" ++ String c b1 ++ nls)%string with ("shoot:" ++ (" alias=" ++ String c b1 ++ nls))%string.
+  rewrite mt_lit by discriminate. rewrite mt_cat, mt_starc. apply lazy_here.
+  rewrite RA2_shape. rewrite mt_cat.
+  change (" alias=" ++ String c b1 ++ nls)%string with (String " " ("alias=" ++ (String c b1 ++ nls))%string).
+  rewrite mt_rchar by reflexivity. rewrite mt_cat. rewrite mt_lit by discriminate.
+  rewrite mt_cat, mt_group, mt_cat.
+  change (String c b1 ++ nls)%string with (String c (b1 ++ nls)%string).
+  rewrite mt_rchar by exact Hc. rewrite mt_starc.
+  erewrite (star_greedy_full alias_c b1 _ _ nls); [reflexivity | exact Hb | reflexivity |].
+  cbn [mk ms_pos ms_prev ms_rest ms_caps String.length last_of].
+  match goal with |- mt RA3 (mk ?p ?pv nls [(1, (?a, ?b))]) final = _ =>
+    replace p with (pos + 13 + S (String.length b1)) by lia;
+    replace b with (pos + 13 + S (String.length b1)) by lia;
+    replace a with (pos + 13) by lia end.
   exact He.
 Qed.
 
@@ -924,6 +938,14 @@ Proof. intros e r. destruct r; cbn [kv_body]; unfold entry; simpl; eauto. Qed.
 Lemma bol_fail_here : forall R pos c s, is_nl c = false ->
   mt (RCat (RBol true) R) (mk pos (Some c) s []) final = None.
 Proof. intros. cbn [mt mk ms_prev]. rewrite H. reflexivity. Qed.
+
+Lemma search_step : forall r pos prev c s,
+  search_from r pos prev (String c s)
+  = match mt r (mk pos prev (String c s) []) final with
+    | Some e => Some (pos, e)
+    | None => search_from r (S pos) (Some c) s
+    end.
+Proof. reflexivity. Qed.
 
 (* parseAlias on a request line (without the keyword) followed by the canonical alias line *)
 Lemma parse_alias_second : forall tl e r,
@@ -935,30 +957,31 @@ Proof.
   unfold no_alias_kw in H. apply andb_true_iff in H. destruct H as [Hnl Hkw]. apply negb_true_iff in Hkw.
   destruct (kv_body_head e r) as [b1 Eb]. fold al in Eb.
   set (L2 := ("shoot: alias=" ++ kv_body al ++ nls)%string).
-  unfold parse_alias, find.
-  change ("shoot:" ++ tl ++ nls ++ L2)%string with (String "s" ("hoot:" ++ tl ++ nls ++ L2)%string). cbn [search_from].
-  change (String "s" ("hoot:" ++ tl ++ nls ++ L2)%string) with ("shoot:" ++ tl ++ String nl L2)%string.
-  fold (mk 0 None ("shoot:" ++ tl ++ String nl L2)%string []). fold final.
-  rewrite alias_line_start_fails by (try assumption; reflexivity).
-  rewrite re_alias_shape.
-  change ("hoot:" ++ tl ++ nls ++ L2)%string with (String "h" (("oot:" ++ tl) ++ String nl L2)%string).
-  rewrite bol_skip1; [|reflexivity | cbn [sall]; rewrite sall_app, Hnl; reflexivity].
-  destruct (last_of_not_nl ("oot:" ++ tl)%string "h" eq_refl) as [c' [E1 E2]]; [rewrite sall_app, Hnl; reflexivity|].
-  rewrite E1. cbn [search_from].
-  match goal with |- context [mt ?R {| ms_pos := ?p; ms_prev := Some c'; ms_rest := ?s; ms_caps := [] |} ?k] =>
-    change (mt R {| ms_pos := p; ms_prev := Some c'; ms_rest := s; ms_caps := [] |} k) with (mt R (mk p (Some c') s []) final) end.
-  rewrite bol_fail_here by exact E2.
-  rewrite <- re_alias_shape.
-  unfold L2 at 1. rewrite Eb.
-  match goal with |- context [search_from re_alias ?p (Some nl) _] =>
-    destruct (alias_line_match p "{" b1) as [e0 [He0 Hc0]]; [rewrite <- Eb; exact Hbody|] end.
-  rewrite (search_first _ _ _ _ _ He0).
-  match goal with |- context [group ?d e0 1] => assert (G : group d e0 1 = kv_body al) end.
-  { unfold group. rewrite Hc0. rewrite <- Eb.
+  assert (Efind : exists e0, find re_alias ("shoot:" ++ tl ++ nls ++ L2)%string = Some e0 /\
+                  cap_lookup 1 (ms_caps e0) = Some (String.length ("shoot:" ++ tl ++ nls)%string + 13,
+                                                    String.length ("shoot:" ++ tl ++ nls)%string + 13 + String.length (kv_body al))).
+  { unfold find.
+    change ("shoot:" ++ tl ++ nls ++ L2)%string with (String "s" ("hoot:" ++ tl ++ nls ++ L2)%string).
+    rewrite search_step.
+    change (String "s" ("hoot:" ++ tl ++ nls ++ L2)%string) with ("shoot:" ++ tl ++ String nl L2)%string.
+    rewrite alias_line_start_fails by (try assumption; reflexivity).
+    rewrite re_alias_shape.
+    change ("hoot:" ++ tl ++ nls ++ L2)%string with (String "h" (("oot:" ++ tl) ++ String nl L2)%string).
+    rewrite bol_skip1; [|reflexivity | cbn [sall]; rewrite sall_app, Hnl; reflexivity].
+    destruct (last_of_not_nl ("oot:" ++ tl)%string "h" eq_refl) as [c' [E1 E2]]; [rewrite sall_app, Hnl; reflexivity|].
+    rewrite E1. rewrite search_step. rewrite bol_fail_here by exact E2.
+    rewrite <- re_alias_shape. unfold L2. rewrite Eb.
+    match goal with |- context [search_from re_alias ?p (Some nl) _] =>
+      destruct (alias_line_match p "{" b1) as [e0 [He0 Hc0]]; [rewrite <- Eb; exact Hbody|];
+      exists e0; rewrite (search_first _ _ _ _ _ He0); split; [reflexivity|]; rewrite Hc0 end.
+    rewrite !length_sapp. simpl String.length. f_equal. f_equal; lia. }
+  destruct Efind as [e0 [Ef Hc0]].
+  unfold parse_alias. rewrite Ef.
+  assert (G : group ("shoot:" ++ tl ++ nls ++ L2)%string e0 1 = kv_body al).
+  { unfold group. rewrite Hc0.
     match goal with |- substring ?a ?n ?s = _ =>
       replace n with (String.length (kv_body al)) by lia;
-      change s with (("shoot:" ++ tl ++ nls ++ L2)%string);
-      replace (("shoot:" ++ tl ++ nls ++ L2)%string) with (("shoot:" ++ tl ++ nls ++ "shoot: alias=") ++ kv_body al ++ nls)%string
+      replace s with (("shoot:" ++ tl ++ nls ++ "shoot: alias=") ++ kv_body al ++ nls)%string
         by (unfold L2; rewrite !sapp_assoc; reflexivity);
       replace a with (String.length ("shoot:" ++ tl ++ nls ++ "shoot: alias=")%string) by (rewrite !length_sapp; simpl; lia) end.
     apply substring_mid. }
@@ -1020,3 +1043,32 @@ Proof.
   intros E m v quoted ts al ps Hok Hdoc Hty. destruct (canonical_parses v quoted ts al Hok) as [H1 H2].
   exists (canonical_doc v quoted ts al). repeat split; assumption.
 Qed.
+
+(* the main theorem with [linked] discharged by the rendering *)
+Lemma request_for_canonical :
+  forall fmt_v join_path json_marshal url_query sigma_d (sigma sigma_h : oracle) E I m v quoted ts al ps base args,
+  is_oracle sigma -> is_oracle sigma_h ->
+  directive_ok v quoted ts al = true ->
+  md_doc m = Some (canonical_doc v quoted ts al) ->
+  typed_params E m = map (fun pk => (fst pk, Some (snd pk))) ps ->
+  wf_mspec {| s_verb := upper v; s_toks := ts; s_alias := al; s_params := ps |} = true ->
+  args_in_guard fmt_v {| s_verb := upper v; s_toks := ts; s_alias := al; s_params := ps |} args = true ->
+  exists d, cook_method sigma E m = COk d /\
+    exec fmt_v join_path json_marshal url_query sigma_d (iface_headers sigma_h I (d_verb d)) d base args
+    = spec_request fmt_v join_path json_marshal url_query sigma_d
+        {| s_verb := upper v; s_toks := ts; s_alias := al; s_params := ps |} (iface_directive I) base args.
+Proof.
+  intros. apply request_is_declared; try assumption. apply (canonical_linked E m v quoted ts al ps); assumption.
+Qed.
+
+(* non-vacuity: the first two methods of /repo/cmd/test/restclient/rest.go are documented in the canonical form *)
+Lemma canonical_example_getuser :
+  directive_ok "Get" true [PLit "/users/"; PHole "id"] [("userID", "id")] = true /\
+  canonical_doc "Get" true [PLit "/users/"; PHole "id"] [("userID", "id")]
+  = ("shoot: Get(""/users/{id}"")" ++ nls ++ "shoot: alias={userID:id}" ++ nls)%string.
+Proof. split; vm_compute; reflexivity. Qed.
+Lemma canonical_example_queryusers :
+  directive_ok "Get" true [PLit "/users"] [("pageSize", "size"); ("pageIdx", "page_idx")] = true /\
+  canonical_doc "Get" true [PLit "/users"] [("pageSize", "size"); ("pageIdx", "page_idx")]
+  = ("shoot: Get(""/users"")" ++ nls ++ "shoot: alias={pageSize:size},{pageIdx:page_idx}" ++ nls)%string.
+Proof. split; vm_compute; reflexivity. Qed.
